@@ -14,7 +14,7 @@ def cfg_text(family, versions, pldepth):
             "INVARIANTS %s\nCHECK_DEADLOCK FALSE\n" % (versions, family, pldepth, INVS))
 
 
-def gen_family(ctx, family):
+def gen_family(ctx, family, workers=None):
     versions = "VersionsQuick" if ctx.tier == "quick" else "VersionsAll"
     pldepth = "small"
     if family == "pl2" and ctx.tier == "quick":
@@ -23,7 +23,7 @@ def gen_family(ctx, family):
     cfg = "Auth_gen_%s_%s.cfg" % (family, ctx.tier)
     with open(os.path.join(d, cfg), "w") as f:
         f.write(cfg_text(family, versions, pldepth))
-    return ctx.tlc("Auth_gen", cfg, timeout=1500)
+    return ctx.tlc("Auth_gen", cfg, timeout=1500, workers=workers)
 
 
 def run_families(ctx, cmd, families):
@@ -37,8 +37,12 @@ def run_families(ctx, cmd, families):
     ctx.notes["rule"] = ("every scenario of the Auth_gen.tla families %s for versions %s; "
                          "distinct = distinct (family, version, canonical scenario key, verdict)"
                          % (families, "VersionsQuick" if ctx.tier == "quick" else "all 16"))
-    for fam in families:
-        r = gen_family(ctx, fam)
+    # TLC runs of the families are independent: a few at a time, then the replays (parallel inside the harness)
+    from concurrent.futures import ThreadPoolExecutor
+    ctx._spec_dir()   # create the scratch copy of spec/ before the threads start
+    with ThreadPoolExecutor(max_workers=4) as ex:
+        results = list(ex.map(lambda fam: gen_family(ctx, fam, workers=max(2, ctx.workers // 4)), families))
+    for r in results:
         ctx.replay_and_compare(cmd, r.records)
 
 
